@@ -134,7 +134,7 @@ SPEC = {
                  "C12_shrink_history_check_sound", "C12_shrink_foreach_snapshot",
                  "C12_shrink_refines_plain_map", "C12_shrink_rule_unobservable", "C12_shrink_thresholds_unobservable", "C12_shrink_rule_ieee_specials",
                  "C12_plain_map_laws", "C12_shrink_garbage_le_deleted", "C12_shrink_count_threshold_bounds_garbage",
-                 "C12_rmap_index_invariant", "C12_rmap_refines_plain_map", "C12_rmap_pick_is_member", "C12_rmap_unique_entries", "C12_rmap_keys_owned", "C12_rmap_keys_view_is_model", "C12_rmap_keys_alias_witness",
+                 "C12_rmap_index_invariant", "C12_rmap_refines_plain_map", "C12_rmap_pick_is_member", "C12_rmap_unique_entries", "C12_rmap_keys_owned", "C12_rmap_keys_view_is_model", "C12_rmap_keys_alias_witness", "C12_rmap_keys_scratch_witness",
                  "C12_heap_invariant", "C12_heap_pop_is_best", "C12_heap_remove_idempotent", "C12_heap_pop_in_priority_order",
                  "C12_heap_refines_priority_multiset", "C12_heap_depends_only_on_sign",
                  "C12_queue_bounded_fifo", "C12_queue_ring_invariant", "C12_ring_refines_window", "C12_ring_toSlice_last_min_n_cap",
